@@ -137,6 +137,15 @@ func emitJar(w *out, id string, ops []jarOp) {
 			break
 		}
 	}
+	for _, o := range ops {
+		if o.kind == 'T' {
+			w.Count("jar-ticked")
+			break
+		}
+	}
+	if obs == "slow" {
+		w.Count("jar-slow")
+	}
 }
 
 // schedAnomaly: a schedule case ended with something else than T / R<own id>. Schedule cases after an
@@ -279,7 +288,9 @@ func worker(o gen.Opts, from, to int) {
 			emitAsm(w, id, genAsm(r, i, thorough))
 		default:
 			// a few histories per run in which cookies expire between two operations (real time: ~0.35 s each)
-			emitJar(w, id, genJar(r, i%1000 == 13))
+			// … and every ninth history on a tick clock of a few milliseconds (cookies with different lives, up to
+			// five waits of 1-2 ticks, lookups and real requests in between)
+			emitJar(w, id, genJar(r, i%1000 == 13, i%20 == 10))
 		}
 	}
 	distCounter{w}.add("pool-rounds", poolRounds)
